@@ -1,10 +1,12 @@
 #!/usr/bin/env python3
-"""usage: auto_twins.py <fstring|hoist|tern2if|if2tern> <out-dir> [file ...]
+"""usage: auto_twins.py <fstring|hoist|tern2if|if2tern|loop2join|pos2kw> <out-dir> [file ...]
 Mechanical behaviour-preserving rewrites of the generators, one function at a time, written as
 <out-dir>/benign_out/<n>/patch.diff for tools/benign_matrix.py:
   fstring  every `'<template>'.format(k=<simple expr>, ...)` of the function becomes the equivalent f-string
            (only calls whose arguments are names / attributes / constants / subscripts: evaluation order cannot matter);
   tern2if  `x = A if c else B` becomes an if/else statement;  if2tern  the reverse, for if/else pairs that assign one name;
+  loop2join  an accumulation loop with a one-statement body becomes a join / a list comprehension;
+  pos2kw   positional arguments of calls of functions of the same file are passed by keyword;
   hoist    every keyword argument of a `.format` call in a simple statement is first bound to a local
            (`k_v = <expr>` in argument order, directly in front of the statement) and the local is passed.
 A twin is kept only if the repository's test suite still passes with it (run in a scratch copy under /dev/shm)."""
@@ -204,10 +206,107 @@ def rewrite_if_to_ternary(src, fn):
     return out
 
 
+def rewrite_loop_to_join(src, fn):
+    """`acc = ''` directly followed by `for x in it: acc += E`  ->  `acc = ''.join(E for x in it)`;
+    `acc = []` directly followed by `for x in it: acc.append(E)`  ->  `acc = [E for x in it]`."""
+    lines = src.splitlines(keepends=True)
+    edits = []
+    for blk_owner in ast.walk(fn):
+        for fld in ("body", "orelse", "finalbody"):
+            blk = getattr(blk_owner, fld, None)
+            if not isinstance(blk, list):
+                continue
+            for a_, b_ in zip(blk, blk[1:]):
+                if not (isinstance(a_, ast.Assign) and len(a_.targets) == 1 and isinstance(a_.targets[0], ast.Name) and isinstance(b_, ast.For)
+                        and not b_.orelse and len(b_.body) == 1):
+                    continue
+                acc = a_.targets[0].id
+                st = b_.body[0]
+                tgt = ast.unparse(b_.target)
+                it = ast.unparse(b_.iter)
+                if any(isinstance(x, ast.Name) and x.id == acc for x in ast.walk(b_.iter)):
+                    continue
+                new = None
+                if isinstance(a_.value, ast.Constant) and a_.value.value == "" and isinstance(st, ast.AugAssign) and isinstance(st.op, ast.Add) \
+                        and isinstance(st.target, ast.Name) and st.target.id == acc and not any(isinstance(x, ast.Name) and x.id == acc for x in ast.walk(st.value)):
+                    new = f"{acc} = ''.join({ast.unparse(st.value)} for {tgt} in {it})"
+                elif isinstance(a_.value, ast.List) and not a_.value.elts and isinstance(st, ast.Expr) and isinstance(st.value, ast.Call) \
+                        and isinstance(st.value.func, ast.Attribute) and st.value.func.attr == "append" and isinstance(st.value.func.value, ast.Name) \
+                        and st.value.func.value.id == acc and len(st.value.args) == 1 \
+                        and not any(isinstance(x, ast.Name) and x.id == acc for x in ast.walk(st.value.args[0])):
+                    new = f"{acc} = [{ast.unparse(st.value.args[0])} for {tgt} in {it}]"
+                if new is None:
+                    continue
+                s0, _ = span(lines, a_)
+                _, e1 = span(lines, b_)
+                edits.append((s0, e1, new))
+    if not edits:
+        return None
+    keep = []
+    for e in sorted(edits):
+        if keep and e[0] < keep[-1][1]:
+            continue
+        keep.append(e)
+    out = src
+    for a, b, new in reversed(keep):
+        out = out[:a] + new + out[b:]
+    return out
+
+
+_SIGS = {}
+
+
+def rewrite_pos_to_kw(src, fn):
+    """Every positional argument of a call of a method of the same file (`self.<m>(a, b)`, `<Class>.<m>(a, b)`) or of a
+    module-level function of the same file is passed by keyword (`self.<m>(x=a, y=b)`), in the same order."""
+    lines = src.splitlines(keepends=True)
+    sigs = _SIGS.get(id(src))
+    if sigs is None:
+        tree = ast.parse(src)
+        sigs = {}
+        for n in ast.walk(tree):
+            if isinstance(n, ast.FunctionDef):
+                sigs.setdefault(n.name, []).append(n)
+        _SIGS.clear()
+        _SIGS[id(src)] = sigs
+    edits = []
+    for c in ast.walk(fn):
+        if not isinstance(c, ast.Call) or not c.args or any(isinstance(a, ast.Starred) for a in c.args) or any(k.arg is None for k in c.keywords):
+            continue
+        name, drop = None, False
+        if isinstance(c.func, ast.Attribute) and isinstance(c.func.value, ast.Name) and c.func.value.id == "self":
+            name, drop = c.func.attr, True
+        elif isinstance(c.func, ast.Name):
+            name = c.func.id
+        if name is None or len(sigs.get(name, [])) != 1:
+            continue
+        d = sigs[name][0]
+        if d.args.vararg or d.args.posonlyargs:
+            continue
+        static = any(ast.unparse(x) == "staticmethod" for x in d.decorator_list)
+        params = [a.arg for a in d.args.args]
+        if drop and not static:
+            params = params[1:]
+        elif not drop and params[:1] == ["self"]:
+            continue
+        if len(c.args) > len(params):
+            continue
+        for a, pn in zip(c.args, params):
+            s0, _ = span(lines, a)
+            edits.append((s0, s0, pn + "="))
+    if not edits:
+        return None
+    out = src
+    for a, b, new in sorted(set(edits), reverse=True):
+        out = out[:a] + new + out[b:]
+    return out
+
+
 def main():
     mode, outdir = sys.argv[1], sys.argv[2]
     files = sys.argv[3:] or FILES
-    rw = {"fstring": rewrite_fstring, "hoist": rewrite_hoist, "tern2if": rewrite_ternary_to_if, "if2tern": rewrite_if_to_ternary}[mode]
+    rw = {"fstring": rewrite_fstring, "hoist": rewrite_hoist, "tern2if": rewrite_ternary_to_if, "if2tern": rewrite_if_to_ternary,
+          "loop2join": rewrite_loop_to_join, "pos2kw": rewrite_pos_to_kw}[mode]
     os.makedirs(os.path.join(outdir, "benign_out"), exist_ok=True)
     n = 0
     base = tempfile.mkdtemp(prefix="tw-", dir="/dev/shm")
